@@ -265,7 +265,7 @@ def any_flow(res):
 # ---------------------------------------------------------------------------
 # configs: well-formed form of netgen configs, the zoo
 # ---------------------------------------------------------------------------
-FILED_AS = {"ResidentialDemand": "Demand", "RiverReservoir": "Reservoir", "QueueGroundwater": "Groundwater"}
+FILED_AS = {"ResidentialDemand": "Demand", "RiverReservoir": "Reservoir", "QueueGroundwater": "Groundwater", "EnfieldFoulSewer": "Sewer"}
 
 
 def wellformed(cfg):
@@ -322,7 +322,7 @@ def gen_zoo(r, ndates=6, polset=None, pervious=None, growing=True, start="2000-0
     g.arc(r1, r2)
     g.arc(r2, out)
     rr = g.reservoir(river_like=True)
-    _node(g, rr).update(environmental_flow=z(2, 6), datum=F(3))
+    _node(g, rr).update(environmental_flow=z(2, 6), datum=F(3), type_="Reservoir", node_type_override="RiverReservoir")
     j3 = g.junction()                # (a River does not push to a Reservoir; pulls must not reach a queueing arc)
     g.arc(g.catchment(), j3)
     g.arc(j3, rr)
@@ -597,12 +597,35 @@ def has_monthly_surface_data(cfg):
     return any(s.get("data_input_dict") for n in cfg["nodes"] for s in n.get("surfaces", []))
 
 
+def effective_label(n, saved=False):
+    """the key of Model.nodes_type a node is filed under: originally (type_) and after save/load (class __name__)"""
+    if "foul" in n["name"]:
+        return "Foul"                      # add_nodes forces this label from the name, before and after
+    cls = n.get("node_type_override", n["type_"])
+    return FILED_AS.get(cls, cls) if saved else n["type_"]
+
+
+def mislabelled(cfg):
+    """nodes whose filing label is not the name their class presents (Model.save writes the latter as type_)"""
+    return [n["name"] for n in cfg["nodes"] if effective_label(n) != effective_label(n, True)]
+
+
+def relabel(cfg):
+    """the config with the labels Model.save writes"""
+    cfg = copy.deepcopy(cfg)
+    for n in cfg["nodes"]:
+        cls = n.get("node_type_override", n["type_"])
+        n["node_type_override"] = cls
+        n["type_"] = FILED_AS.get(cls, cls)
+    return cfg
+
+
 def check_saveload(cfg, compress):
     """one save/load case.  Returns dict(problems=[messages], known=set(signatures), nontrivial=bool, skipped=reason or None)"""
     res = {"problems": [], "known": set(), "nontrivial": False, "skipped": None, "runs": 0}
     bad = res["problems"].append
     try:
-        perv = plain_pervious(cfg)
+        perv, mis = plain_pervious(cfg), mislabelled(cfg)
         m0 = build(cfg)
         s0 = model_snap(m0)
         m1, y1, f1, err = save_load(m0, compress)
@@ -626,11 +649,23 @@ def check_saveload(cfg, compress):
         # ---- original vs first generation: parameters
         d01 = diff(s0, s1, TOL)
         ref1 = ref2 = None
-        if perv:
-            if only_pervious_depth(d01, m0, cfg):
+        if perv or mis:
+            # known defects apply to this model: recognise them by what exactly differs ...
+            dperv = [x for x in d01 if _PERV_PATH.match(x[0])]
+            dlab = [x for x in d01 if x[0].startswith(".nodes_type")]
+            other = [x for x in d01 if x not in dperv and x not in dlab]
+            if dperv and perv and only_pervious_depth(dperv, m0, cfg):
                 res["known"].add("pervious-depth-saved-scaled")
-            elif d01:
-                other = [x for x in d01 if not _PERV_PATH.match(x[0])] or d01
+            elif dperv:
+                other += dperv
+            # the filing changed exactly for the mislabelled nodes: each sits under its own label before, under the
+            # name of its class after
+            moved = {n["name"]: (effective_label(n), effective_label(n, True)) for n in cfg["nodes"] if n["name"] in mis}
+            if dlab and mis and all(nm in s0["nodes_type"].get(a, []) and nm in s1["nodes_type"].get(b_, []) for nm, (a, b_) in moved.items()):
+                res["known"].add("save-type-from-class-name")
+            elif dlab:
+                other += dlab
+            if other:
                 bad(f"parameter snapshot of the loaded model differs from the original: {fmt_diffs(other)}")
             for land, sname, tp in perv:
                 sd = next(x for nn in cfg["nodes"] if nn["name"] == land for x in nn["surfaces"] if x["surface"] == sname)
@@ -639,17 +674,22 @@ def check_saveload(cfg, compress):
                 if not close(saved, float(depth), TOL) and not close(saved, float(depth * tp), TOL):
                     bad(f"PerviousSurface {land}/{sname}: saved depth {saved} is neither the constructor value {float(depth)} "
                         f"nor the known depth * total_porosity {float(depth * tp)}")
-            # the same comparison with the known defect factored out: the loaded model must be the model of the
-            # config whose pervious depths are what the file says
-            ref1 = build(scaled(cfg, y1))
+            # ... and repeat the comparison with them factored out: the loaded model must be the model of the config
+            # with the pervious depths the file states and the labels save writes
+            refcfg = lambda y: relabel(scaled(cfg, y)) if perv else relabel(cfg)
+            ref1 = build(refcfg(y1))
             dd = diff(model_snap(ref1), s1, TOL)
             if dd:
-                bad(f"loaded model differs from the original beyond the known pervious depth scaling: {fmt_diffs(dd)}")
+                bad(f"loaded model differs from the original beyond the known defects (pervious depth, filing label): {fmt_diffs(dd)}")
             if m2 is not None:
-                ref2 = build(scaled(cfg, y2))
+                ref2 = build(refcfg(y2))
                 dd = diff(model_snap(ref2), s2, TOL)
                 if dd:
-                    bad(f"second-generation model differs beyond the known pervious depth scaling: {fmt_diffs(dd)}")
+                    bad(f"second-generation model differs beyond the known defects (pervious depth, filing label): {fmt_diffs(dd)}")
+                if not perv:
+                    d12 = diff(s1, s2, 0.0)
+                    if d12:
+                        bad(f"saving and loading again changed the model: {fmt_diffs(d12)}")
         else:
             if d01:
                 bad(f"parameter snapshot of the loaded model differs from the original: {fmt_diffs(d01)}")
@@ -680,8 +720,8 @@ def check_saveload(cfg, compress):
             return res
         res["nontrivial"] = any_flow(r0)
         d = diff_results(r0, r1, TOL)
-        if perv:
-            if d and "pervious-depth-saved-scaled" not in res["known"]:
+        if perv or mis:
+            if d and not (res["known"] & {"pervious-depth-saved-scaled", "save-type-from-class-name"}):
                 bad(f"results of the loaded model differ from the original: {fmt_diffs(d)}")
             for tag, ref, rr_ in (("loaded", ref1, r1), ("second-generation", ref2, r2)):
                 if ref is None or rr_ is None:
@@ -693,7 +733,11 @@ def check_saveload(cfg, compress):
                     continue
                 d = diff_results(rref, rr_, TOL)
                 if d:
-                    bad(f"results of the {tag} model differ beyond the known pervious depth scaling: {fmt_diffs(d)}")
+                    bad(f"results of the {tag} model differ beyond the known defects (pervious depth, filing label): {fmt_diffs(d)}")
+            if not perv and r2 is not None:
+                d = diff_results(r1, r2, 0.0)
+                if d:
+                    bad(f"results after saving and loading again differ from the first generation: {fmt_diffs(d)}")
         else:
             if d:
                 bad(f"results of the loaded model differ from the original: {fmt_diffs(d)}")
@@ -906,6 +950,8 @@ def run(rep, thorough):
     for i in range(n_rand):
         polset = r.choice(["simple", "four", "reordered", "one", "default"])
         cfg = wellformed(NG.gen_model(r, r.choice([3, 4, 6]), polset, sizes[i % 4]))
+        if (i // 4) % 2:
+            cfg = relabel(cfg)          # labels as Model.save writes them (otherwise netgen files a RiverReservoir under its own label)
         plan.append((cfg, [False, True] if thorough else [bool(i % 2)]))
     for i in range(n_zoo):
         cfg = gen_zoo(r, r.choice([4, 6]), ["default", "simple", "four", "default", "reordered", "one", "default"][i % 7],
